@@ -421,9 +421,12 @@ def c01(ctx):
                             signature=sig('c01s', fen, mv))
             if len(ctx.v.violations) >= 5:
                 break
-    return {'evaluations': n + smoves, 'distinct_nontrivial': len(nontrivial), 'successor_positions_checked': smoves,
+    wide = wide_stream(ctx, 'w01')
+    wide.update(wide_search(ctx))
+    return {'evaluations': n + smoves + wide['commands'] + wide['searches'], 'distinct_nontrivial': len(nontrivial), 'successor_positions_checked': smoves, 'wide': wide,
             'rule': 'positions from biased playouts, synthetic placements (up to 15 promoted pieces), castling/en-passant/pin templates and the 135 suite FENs; '
                     'plus the legal move set after EVERY legal move of ~600 base positions incl. corner-capture templates (SUCC stream); '
+                    'plus positions with more than 60 legal moves: what perft 1..3 walks (against the model) and what `go depth 2..3` answers (WIDE stream); '
                     'every position also as its colour mirror; non-trivial = distinct placements judged against the Spec oracle (rules of chess)',
             'positions_vs_model': n, 'positions_vs_spec': len(ps['spec']), 'model_vs_impl_mismatches': len(mm), 'input_distribution': ps['stats'],
             'traces_validated_against_impl': n,
@@ -511,11 +514,23 @@ def c02(ctx):
                             'how': '`position fen %s moves %s` then `tostr`' % (fen, mv)}, signature=sig('c02s', fen, mv))
             if len(ctx.v.violations) >= 5:
                 break
+    # un-making during search: after searches that run to completion, hit their deadline (also inside quiescence) or are stopped at a
+    # root or inner node, the position stack is back at index 0 with the snapshot `position` left
+    rc, qout, qerr, _ = harness(['queries', str(40 if ctx.quick else 1500), 'search'], timeout=3000)
+    qrows = [l.split('\t') for l in qout.strip().split('\n') if l]
+    for r in qrows:
+        if not r[0].startswith('ok'):
+            ctx.v.violation('position-not-restored-after-a-search', {'setup': r[1], 'searches': r[2] if len(r) > 2 else '', 'observation': r[0][4:],
+                            'note': '`go infinite @d,k` / `#d,nd`: stop sent while the search thread is held after root move k of iteration d / after a move at node depth nd'},
+                            signature=sig('c02q', r[1], r[2] if len(r) > 2 else ''))
+            if len(ctx.v.violations) >= 5:
+                break
     nontriv = sum(int(stats.get(k, 0)) for k in ('castles', 'ep_captures', 'promotions', 'corner_captures'))
-    return {'evaluations': int(stats.get('plies', 0)), 'distinct_nontrivial': nontriv,
+    return {'evaluations': int(stats.get('plies', 0)) + len(qrows), 'distinct_nontrivial': nontriv, 'search_unwind_sessions': len(qrows),
             'rule': 'games from the biased playout generator (start position and corpus FENs, every tenth game up to 400 plies); snapshot (board bytes, '
                     'lists in order, kings, flags, ep, ply) after every ply compared with the model; on the engine alone: PushMove vs ApplyUciMove, '
-                    'pop restores the previous snapshot, strict list<->board bijection; non-trivial = plies that castle, capture en passant, promote or capture on a corner',
+                    'pop restores the previous snapshot, strict list<->board bijection; sessions of searches (completed / deadline / stopped at root or inner nodes) after which the '
+                    'stack index is 0 and the snapshot unchanged; non-trivial = plies that castle, capture en passant, promote or capture on a corner',
             'input_distribution': stats, 'games': len(game_idx), 'model_vs_impl_mismatches': len(mism) + len(sbad), 'traces_validated_against_impl': len(game_idx) + len(scases),
             'single_moves_from_template_positions': smoves,
             'samples': [{'case': cases[game_idx[0]][:200]}] if game_idx else []}
@@ -540,6 +555,47 @@ REPLAYS['C02'] = replay_game
 
 # =====================================================================================================
 # C06  tactical list and perft/tperft counts
+
+
+def wide_stream(ctx, name):
+    """positions with more than 60 legal moves (the per-ply move buffer grows / a list longer than its slot), perft and tperft to depth 3:
+    an inner node with a long list generates its children while its own list is being walked"""
+    wn = 12 if ctx.quick else 150
+    cases, impl, model, model_raw, notes, stats = line_stream(ctx, 'wide', name, [wn, 3])
+    bad = [i for i in range(len(cases)) if impl[i] != model[i] and not model[i].startswith('TIMEOUT')]
+    for i in bad[:5]:
+        c = cases[i].split('\t')
+        cmd = 'perft' if c[0] == 'PERFT' else 'tperft'
+        ctx.v.violation('perft-walk-differs-on-a-position-with-more-than-60-moves', {'fen': c[1], 'command': '%s %s' % (cmd, c[2]), 'engine': impl[i][:800], 'model': model[i][:800],
+                        'how': '`position fen %s`, `%s %s`' % (c[1], cmd, c[2])}, signature=sig(ctx.pid, 'wide', cmd, c[1], c[2]))
+    return {'commands': len(cases), 'mismatches': len(bad), 'max_root_moves': stats.get('max_root_moves'),
+            'model_timeouts': sum(1 for m in model if m.startswith('TIMEOUT'))}
+
+
+def wide_search(ctx):
+    """what search expands on positions with more than 60 legal moves: the engine answers, with a move of the legal set"""
+    rc, out, err, _ = harness(['widefens', str(12 if ctx.quick else 150)])
+    rows = [l.split('\t') for l in out.strip().split('\n') if '\t' in l]
+    jobs = []
+    for fen, legal in rows:
+        for d in (2, 3):
+            if d == 3 and len(legal.split()) > 120 and ctx.quick:
+                continue
+            jobs.append(S.Job(fen, 'go depth %d' % d))
+    S.run_jobs(jobs, workers=8)
+    legal_of = {fen: set(re.sub(r'[*]|@..', '', m) for m in legal.split()) for fen, legal in rows}
+    for j in jobs:
+        best = [l.split()[1] for l in (j.lines or []) if l.startswith('bestmove') and len(l.split()) > 1]
+        if j.died or j.timeout or not best:
+            ctx.v.violation('engine-died-or-hung-searching-a-position-with-more-than-60-moves', {'fen': j.fen, 'go': j.go, 'died': j.died, 'timed_out': j.timeout,
+                            'last_lines': (j.lines or [])[-4:], 'stderr': j.stderr[-600:], 'how': '`position fen %s`, `%s`' % (j.fen, j.go)},
+                            signature=sig(ctx.pid, 'widecrash', j.fen, j.go))
+        elif best[0] not in legal_of[j.fen]:
+            ctx.v.violation('bestmove-not-a-legal-move-on-a-position-with-more-than-60-moves', {'fen': j.fen, 'go': j.go, 'bestmove': best[0],
+                            'how': '`position fen %s`, `%s`' % (j.fen, j.go)}, signature=sig(ctx.pid, 'widebest', j.fen, j.go))
+        if len(ctx.v.violations) >= 5:
+            break
+    return {'searches': len(jobs)}
 
 
 @check('C06', ['C06.v'])
@@ -591,11 +647,13 @@ def c06(ctx):
     for (i, f, a, b) in mm[:20]:
         if not ctx.v.violations:
             ctx.corr_broken.append({'fen': ps['fens'][i], 'field': f, 'impl': a[:200], 'model': b[:200]})
-    return {'evaluations': n + len(cases), 'distinct_nontrivial': len(nontrivial),
+    wide = wide_stream(ctx, 'w06')
+    return {'evaluations': n + len(cases) + wide['commands'], 'distinct_nontrivial': len(nontrivial),
             'rule': 'POS stream (see C01): tactical list, both fast counters, tactical flags against the Spec oracle and the model; perft/tperft divide output of the '
-                    'real commands to depth 2-3 (quick) / 3-4 (thorough) against the model; non-trivial = distinct placements with at least one tactical move',
-            'positions': n, 'perft_commands': len(cases), 'model_vs_impl_mismatches': len(mm) + len(pm), 'input_distribution': ps['stats'],
-            'traces_validated_against_impl': n + len(cases),
+                    'real commands to depth 2-3 (quick) / 3-4 (thorough) against the model; WIDE stream: positions with more than 60 legal moves (beyond the per-ply '
+                    'move buffer), perft/tperft 1..3; non-trivial = distinct placements with at least one tactical move',
+            'positions': n, 'perft_commands': len(cases), 'wide': wide, 'model_vs_impl_mismatches': len(mm) + len(pm), 'input_distribution': ps['stats'],
+            'traces_validated_against_impl': n + len(cases) + wide['commands'],
             'samples': [{'case': cases[k], 'engine': impl[k][:200]} for k in (0, len(cases) // 2)] if cases else []}
 
 
@@ -828,6 +886,26 @@ def crash_violation(ctx, p, prop_note):
                     signature=sig(ctx.pid, 'crash', p['fen'], j.go))
 
 
+def refmm_parallel(items, limit=4000000):
+    """reference minimax (verifh refmm) of (fen, depth) items, one shard per core; an item over the node limit answers PANIC (undecided)"""
+    import concurrent.futures
+    nsh = max(1, min(common.NPROC, len(items)))
+    outs = ['FAILED'] * len(items)
+
+    def shard(i):
+        mine = list(range(i, len(items), nsh))
+        f = RUN + '/c04.refmm.%d' % i
+        open(f, 'w').write(''.join('%s\t%d\n' % items[j] for j in mine))
+        rc, outp, err, _ = harness(['refmm', f, str(limit)], timeout=1200)
+        got = outp.strip().split('\n') if outp.strip() else []
+        return [(j, got[n] if n < len(got) else 'FAILED') for n, j in enumerate(mine)]
+    with concurrent.futures.ThreadPoolExecutor(nsh) as ex:
+        for res in ex.map(shard, range(nsh)):
+            for j, o in res:
+                outs[j] = o
+    return outs
+
+
 @check('C04', ['C04.v', 'C04chess.v'])
 def c04(ctx):
     n = 1000 if ctx.quick else 30000
@@ -867,10 +945,7 @@ def c04(ctx):
     undecided = 0
     if suspicious:
         sus = suspicious[:200]
-        open(RUN + '/c04.refmm', 'w').write(''.join('%s\t%d\n' % (p['fen'], k) for (p, k, what, info) in sus))
-        rc, outp, err, _ = harness(['refmm', RUN + '/c04.refmm'], timeout=1200)
-        outs = outp.strip().split('\n') if outp.strip() else []
-        outs += ['FAILED'] * (len(sus) - len(outs))
+        outs = refmm_parallel([(p['fen'], k) for (p, k, what, info) in sus])
         for (p, k, what, info), o in zip(sus, outs):
             if what == 'score':
                 if not o.startswith('OK|'):
@@ -887,10 +962,18 @@ def c04(ctx):
                                     'minimax_value': int(v), 'minimax_as_reported': '%s %d' % exact, 'tree_has_lazy_sensitive_node': False,
                                     'model_search_value': mval[0]['score'] if mval else None, 'reference_nodes': int(nodes),
                                     'how': '`position fen %s`, `go depth %d`, read `info depth %d` (or the final `info score`); reference = plain minimax of the '
-                                           'full tree with the engine\'s own generator and full evaluation (verifh refmm)' % (p['fen'], p['depth'], k)},
+                                           'full tree over the engine\'s legal-move generator (material-changing subset decided from the board, not by the tactical generator) and full evaluation (verifh refmm)' % (p['fen'], p['depth'], k)},
                                     signature=sig('c04', p['fen'], k))
+                elif mval and S.format_score(mval[0]['score']) != exact:
+                    # no node of the tree is lazy-sensitive, so by C04_state_machine_root the model search value IS the minimax value of
+                    # the model; the reference built from the engine's generator/evaluation says otherwise: an engine component the
+                    # reference shares with the search (legal generator, evaluation, mate test) has left the model
+                    ctx.v.violation('score-differs-from-proved-minimax-of-the-model', {'fen': p['fen'], 'depth': k, 'engine_score': '%s %d' % (info[0], info[1]),
+                                    'model_search_value': mval[0]['score'], 'reference_minimax_from_engine_components': int(v), 'tree_has_lazy_sensitive_node': False,
+                                    'how': '`position fen %s`, `go depth %d`; the tree has no lazy-sensitive node, so theorem C04_chess_state_machine_root makes the '
+                                           'model value exact' % (p['fen'], p['depth'])}, signature=sig('c04m', p['fen'], k))
                 else:
-                    deviations += 1      # the engine equals minimax; the model search (its own ordering) met a sensitive node
+                    deviations += 1
             else:
                 ctx.v.violation('iterations-completed-differ', {'fen': p['fen'], 'go': 'go depth %d' % p['depth'], 'observation': what,
                                 'engine_depth_lines': sorted(S.impl_iterations(p['parsed'])), 'model_iterations': [i['depth'] for i in p['model']['iters']],
@@ -925,7 +1008,7 @@ for _p in ('C03', 'C04', 'C05', 'C10', 'C14'):
     REPLAYS[_p] = replay_search
 
 
-@check('C05', ['C05.v'])
+@check('C05', ['C05.v', 'C05mate.v'])
 def c05(ctx):
     n = 260 if ctx.quick else 6000
     allpos = S.positions(ctx, n, extra_seed=5)
@@ -1094,8 +1177,9 @@ def c03(ctx):
     kinds = {}
     for j in jobs:
         kinds[j.go.split()[1] if len(j.go.split()) > 1 else 'bare'] = kinds.get(j.go.split()[1] if len(j.go.split()) > 1 else 'bare', 0) + 1
-    return {'evaluations': len(jobs) + multi * 3, 'distinct_nontrivial': len(set((j.fen, j.go, j.stop_after) for j in jobs)),
-            'rule': 'positions with at least one legal move x go forms (depth, movetime incl. 1 ms and negative, clock forms incl. 1 ms budgets, infinite/bare followed by stop '
+    wide = wide_search(ctx)
+    return {'evaluations': len(jobs) + multi * 3 + wide['searches'], 'distinct_nontrivial': len(set((j.fen, j.go, j.stop_after) for j in jobs)), 'wide': wide,
+            'rule': 'positions with at least one legal move (and positions with 61..218 legal moves: `wide`) x go forms (depth, movetime incl. 1 ms and negative, clock forms incl. 1 ms budgets, infinite/bare followed by stop '
                     'after 0-50 ms, three consecutive go commands); observable = number of bestmove lines per go and legality of the move by the model generator; '
                     'non-trivial = distinct (position, go form, stop delay)',
             'go_forms': kinds, 'traces_validated_against_impl': len(jobs),
@@ -1383,7 +1467,8 @@ def c16(ctx):
             kinds[k] = kinds.get(k, 0) + 1
         if not r[0].startswith('ok'):
             ctx.v.violation('query-changed-the-game-position', {'setup': r[1], 'queries': r[2] if len(r) > 2 else '', 'observation': r[0][4:],
-                            'note': '`go infinite @d,k` = go infinite, stop sent while the search thread is held after root move k of iteration d'},
+                            'note': '`go infinite @d,k` = go infinite, stop sent while the search thread is held after root move k of iteration d; '
+                                    '`go infinite #d,nd` = stop sent while it is held inside iteration d after a move at a node of depth nd'},
                             signature=sig('c16', r[1], r[2] if len(r) > 2 else ''))
             if len(ctx.v.violations) >= 5:
                 break
